@@ -277,3 +277,22 @@ Proof.
     + cbn. exact X3.
 Qed.
 End Req.
+
+(* the executable forms of the starting invariant (Spec/SBody.v) are sound *)
+Lemma bd_rq_invb_sound i c : bd_rq_invb i c = true -> bd_rq_inv i c.
+Proof.
+  unfold bd_rq_invb. intros H. repeat (apply andb_true_iff in H; destruct H as (H & ?)).
+  destruct (c_in_tx c) as [j|] eqn:E1; [|discriminate]. apply Nat.eqb_eq in H. subst j.
+  destruct (tx_slot c i) as [t|] eqn:E2; [|discriminate]. apply Nat.eqb_eq in H4.
+  destruct (k_receiver_hook (c_in c)) eqn:E3; [discriminate|].
+  destruct (k_header (c_in c)) eqn:E4; [discriminate|].
+  destruct (k_data (c_in c)) as [d|] eqn:E5; [|discriminate].
+  apply andb_true_iff in H0. destruct H0 as (A & B). apply Nat.eqb_eq in A. apply Nat.leb_le in B.
+  apply negb_true_iff in H1.
+  constructor; auto. exists t; auto. exists d; auto.
+Qed.
+Lemma bd_rq_cleanb_sound c : bd_rq_cleanb c = true -> bd_rq_clean c.
+Proof.
+  unfold bd_rq_cleanb, bd_rq_clean. intros H. apply andb_true_iff in H. destruct H as (A & B). apply Nat.eqb_eq in A.
+  destruct (k_buf (c_in c)); [discriminate|]. auto.
+Qed.
